@@ -1,2 +1,65 @@
 import Wasp.Model.Broker
-/-! # C17 (broker level) — theorem statements are being added; see DESIGN.md §4 -/
+import Wasp.Proofs.Generated
+import Wasp.Proofs.Dist
+/-!
+# C17 — mount points isolate tenants
+
+* `C17_prefix_levels`, `C17_trim_prefix`: prefixing a topic with a mount point adds exactly one
+  leading level, and trimming gives back exactly the name the publisher used (the trim function is
+  the one REGENERATED from sessions/session.go);
+* `C17_no_cross_match`: a filter inside mount point m₁ never matches a topic inside m₂ ≠ m₁ —
+  whatever the filter ('#', '+/…' included), because the first level is the literal mount point;
+* `C17_send_topic`: every PUBLISH the writer emits to a session carries the stored topic minus that
+  session's mount point prefix, and is emitted to that session's connection only;
+* `C17_recipients_same_mount`: the recipients the writer resolves for a stored publish whose topic
+  lies in mount point m are sessions that subscribed inside m;
+* `C17_clientid_scoped`: the take-over lookup never returns a session of another mount point, so a
+  CONNECT in m₂ never deletes the record of a session in m₁.
+A mount point is well formed when it is non-empty and contains no '/', and is not '+' or '#'.
+-/
+namespace Wasp.Broker
+open Wasp.Dist Wasp.Topic
+
+def wfMount (m : String) : Prop := m ≠ "" ∧ '/' ∉ m.toList ∧ m ≠ "+" ∧ m ≠ "#"
+
+theorem C17_prefix_levels (m t : String) (hm : wfMount m) :
+    levels (prefixMountPoint m t) = m :: levels t := by
+  sorry
+
+theorem C17_trim_prefix (m t : String) : trimMountPoint m (prefixMountPoint m t) = t := by
+  sorry
+
+theorem C17_no_cross_match (m₁ m₂ f t : String) (h₁ : wfMount m₁) (h₂ : wfMount m₂) (hne : m₁ ≠ m₂) :
+    mqttMatch (levels (prefixMountPoint m₁ f)) (levels (prefixMountPoint m₂ t)) = false := by
+  sorry
+
+/-- within one mount point, matching is matching of the client-side names -/
+theorem C17_same_mount_match (m f t : String) (hm : wfMount m) :
+    mqttMatch (levels (prefixMountPoint m f)) (levels (prefixMountPoint m t)) = mqttMatch (levels f) (levels t) := by
+  sorry
+
+/-- the take-over lookup is scoped to the mount point -/
+theorem C17_clientid_scoped (st : State) (mount client : String) (s : SessionMD)
+    (h : s ∈ sessByClientID st mount client) : s.mount = mount ∧ s.client = client := by
+  sorry
+
+/-- every packet `send` emits goes to the connection of a recipient session, and a PUBLISH carries the
+    stored topic minus that session's mount point -/
+theorem C17_send_topic (w : World) (i : Nat) (rcpt : List (String × Int)) (p : Pub) (conn : String) (pk : Pkt)
+    (h : (conn, pk) ∈ (w.send i rcpt p).out) (hnew : (conn, pk) ∉ w.out) :
+    ∃ sid s, (sid ∈ rcpt.map (·.1)) ∧ (w.node i).sess sid = some s ∧ s.conn = conn ∧
+      ∃ q mid, pk = .publish (trimMountPoint s.mount p.topic) p.payload q p.retain p.dup mid := by
+  sorry
+
+/-- recipients of a publish stored under mount point m subscribed inside m -/
+theorem C17_recipients_same_mount (st : State) (m t : String) (hm : wfMount m) (s : Sub)
+    (h : s ∈ subByPattern st (prefixMountPoint m t))
+    (hp : ∃ m' f, wfMount m' ∧ s.pattern = prefixMountPoint m' f) :
+    ∃ f, s.pattern = prefixMountPoint m f := by
+  sorry
+
+example : mqttMatch (levels (prefixMountPoint "tenantA" "#")) (levels (prefixMountPoint "tenantB" "x/y")) = false ∧
+    mqttMatch (levels (prefixMountPoint "tenantA" "+/y")) (levels (prefixMountPoint "tenantA" "x/y")) = true ∧
+    trimMountPoint "tenantA" (prefixMountPoint "tenantA" "/lead//x") = "/lead//x" := by decide
+
+end Wasp.Broker
